@@ -9,6 +9,7 @@ import (
 	"fmt"
 	"math/rand"
 	"net"
+	"os"
 	"regexp"
 	"strings"
 	"sync"
@@ -198,8 +199,9 @@ type senderWorld struct {
 	cbSinceDial atomic.Int64 // callbacks since the last dial (the sender recycles a connection after 100 streams)
 	okAfter   atomic.Int64 // successful writes on a connection opened after some failure
 
-	submit func(s *streamState) error
-	pad    string
+	submit  func(s *streamState) error
+	pad     string
+	backend gostatsd.Backend // the real client, when the target is one
 
 	logMu sync.Mutex
 	log   []string
@@ -389,11 +391,17 @@ func (w *senderWorld) idle() bool {
 	return true
 }
 
-const senderStall = 6 * time.Second // no dial, write, close or callback for this long (the longest legitimate silence is the 1 s reconnect timer)
+// stalled = no dial, write, close or callback during senderStall AND during senderStallPolls polls of this
+// loop (so that a starved process does not look stalled); the longest legitimate silence is the 1 s reconnect timer
+const (
+	senderStall      = 8 * time.Second
+	senderStallPolls = 3000
+)
 
 func (w *senderWorld) waitIdle() string {
 	last := w.progress.Load()
 	lastChange := time.Now()
+	polls := 0
 	for i := 0; ; i++ {
 		w.subMu.Lock()
 		rc := w.runCancelled
@@ -410,8 +418,8 @@ func (w *senderWorld) waitIdle() string {
 			return "idle"
 		}
 		if p := w.progress.Load(); p != last {
-			last, lastChange = p, time.Now()
-		} else if time.Since(lastChange) > senderStall {
+			last, lastChange, polls = p, time.Now(), 0
+		} else if polls++; polls > senderStallPolls && time.Since(lastChange) > senderStall {
 			return "stalled"
 		}
 		if i < 100 {
@@ -463,6 +471,7 @@ func (w *senderWorld) setup() (run func(context.Context), err error) {
 		}
 		cl := be.(*graphite.Client)
 		cl.VerifSetConnFactory(w.dial)
+		w.backend = be
 		w.submit = func(s *streamState) error {
 			cl.SendMetricsAsync(s.ctx, gaugeMap(fmt.Sprintf("s%d", s.id), s.bufs, ""), w.callback(s))
 			return nil
@@ -478,6 +487,7 @@ func (w *senderWorld) setup() (run func(context.Context), err error) {
 		}
 		cl := be.(*statsdaemon.Client)
 		cl.VerifSetConnFactory(w.dial)
+		w.backend = be
 		if w.c.Target == "statsdaemon-pkt" {
 			w.pad = "_" + strings.Repeat("x", 800) // one line per 1472-byte packet => one buffer per gauge
 		}
@@ -605,7 +615,10 @@ func runSenderCase(r *mon.Run, c senderCase) {
 			s.mu.Lock()
 			errs, hit := s.errs, s.hit
 			s.mu.Unlock()
-			if !s.isDelivered() && !hasErr(errs) {
+			// A request whose own context was cancelled may be truncated by the producer (statsdaemon stops
+			// generating buffers): that is not a transport failure, so an error is demanded only if a write failed.
+			producerMayStop := c.Target != "sender" && s.cancelled.Load()
+			if !s.isDelivered() && !hasErr(errs) && (hit || !producerMayStop) {
 				r.Violation(c.Target+":no-error-on-undelivered:"+class, detail(s, fmt.Sprintf("was not fully written (write failed on its data: %v) but its callback carried no error (%v)", hit, errStrings(errs))), payload)
 			}
 			if s.isDelivered() && hasErr(errs) {
@@ -620,6 +633,9 @@ func runSenderCase(r *mon.Run, c senderCase) {
 		r.Inconclusive(c.Target + ":run-not-returned")
 	case state == "stalled" && missing == 0:
 		r.Inconclusive(c.Target + ":stalled")
+		if os.Getenv("C16_DEBUG") != "" {
+			fmt.Fprintf(os.Stderr, "STALLED %s\n  %s\n", js(c), strings.Join(log, "\n  "))
+		}
 	case state == "unreachable":
 		r.Inconclusive(c.Target + ":script-unreachable")
 	}
@@ -736,7 +752,7 @@ func senderCases(r *mon.Run) []senderCase {
 	add(senderCase{Target: "sender", Script: []step{W(1), F, {K: "H"}, F}, Streams: many2, Cancel: cancelSpec{Kind: "stream", Stream: 0, At: 4, First: true}, Note: "stale-stream-cancel"})
 
 	// exhaustive dial scripts x cancellation points x drawn layouts (direct sender)
-	maxLen, maxF, layouts := 3, 2, 1
+	maxLen, maxF, layouts := 3, 2, 2
 	if r.Thorough() {
 		maxLen, maxF, layouts = 4, 4, 3
 	}
@@ -760,16 +776,13 @@ func senderCases(r *mon.Run) []senderCase {
 	}
 
 	// the real clients: a fixed family of scripts, each with every cancellation kind
-	clientScripts := [][]step{{}, {F}, {W(1)}, {W(2)}, {F, W(1)}, {W(1), F}, {W(1), W(1)}, {F, F}}
+	clientScripts := allDialScripts(2, 2)
 	if r.Thorough() {
 		clientScripts = allDialScripts(3, 2)
 	}
 	for _, target := range []string{"graphite", "statsdaemon-tcp", "statsdaemon-pkt"} {
 		for _, sc := range clientScripts {
 			for _, co := range cancelOptions(rng, len(sc), 1) {
-				if !r.Thorough() && co.Kind != "" && co.At != len(sc) && co.At != 1 {
-					continue
-				}
 				streams := drawLayout(rng, len(sc))
 				if co.Kind == "stream" {
 					co.Stream = rng.Intn(len(streams))
